@@ -230,7 +230,7 @@ Definition parents_ok (f : file) : Prop :=
 
 Theorem validate_parents_ok h p f : validate h p = Ok f -> parents_ok f.
 Proof.
-  unfold validate. intros H.
+  unfold validate; rewrite ?frev_eq. intros H.
   destruct (compute_parents (rev (pi_layers_rev p))) as [ps| |] eqn:Hc; cbn [rbind] in H; try discriminate.
   destruct (validate_tilesets (pi_palette p) (h_fmt h) (pi_tilesets p)) as [tss| |]; cbn [rbind] in H; try discriminate.
   destruct (validate_layers (rev (pi_layers_rev p)) tss) as [u| |]; cbn [rbind] in H; try discriminate.
